@@ -13,7 +13,7 @@ From Coq Require Import Reals QArith ZArith List Bool.
 From Bignums Require Import BigZ.
 From Coquelicot Require Import Coquelicot.
 From SpdVerif Require Import Base.NumOps Gen.Integration Model.Quadrature.
-From SpdVerif Require Import Proofs.C12_base Proofs.C12_simpson Proofs.C12_rule Proofs.C12_simpson2d Proofs.C12_adaptive Proofs.C12_cert Proofs.C12_expi Proofs.C12_alias.
+From SpdVerif Require Import Proofs.C12_base Proofs.C12_simpson Proofs.C12_rule Proofs.C12_simpson2d Proofs.C12_adaptive Proofs.C12_cert Proofs.C12_expi Proofs.C12_alias Proofs.C12_gl_expi Proofs.C12_gl_cert Proofs.C12_expi2d.
 Import ListNotations.
 Local Open Scope R_scope.
 
@@ -87,6 +87,18 @@ Theorem C12_simpson2d_product_of_1d : forall (cp cq : list C) (ax bx ay by_ : R)
   simpson2d Rops (fun x y => Cmult (cpeval Rops cp x) (cpeval Rops cq y)) ax bx ay by_ divs =
   Cmult (simpson Rops (cpeval Rops cp) ax bx divs) (simpson Rops (cpeval Rops cq) ay by_ divs).
 Proof. exact simpson_2d_product_of_1d. Qed.
+
+(* separable oscillatory integrand amp exp(i(kx + ly)): the 1-D textbook bounds combine *)
+Theorem C12_simpson2d_expi_bound : forall divs (ax bx ay by_ k l : R) (amp : C),
+  simpson2d_accepts divs = true -> k <> 0 -> l <> 0 ->
+  let n := simpson2d_norm divs in
+  let Bx := Cmod amp * simpson_expi_B k ax bx n in
+  let By := simpson_expi_B l ay by_ n in
+  let Ix := Cmult amp (expi_int k ax bx) in
+  let Iy := expi_int l ay by_ in
+  Cmod (Cminus (simpson2d Rops (fun x y => Cmult (Cmult amp (expi k x)) (expi l y)) ax bx ay by_ divs) (Cmult Ix Iy))
+    <= Bx * (Cmod Iy + By) + Cmod Ix * By.
+Proof. exact simpson2d_expi_bound. Qed.
 
 Theorem C12_simpson2d_reverse : forall (f : R -> R -> C) (ax bx ay by_ : R) divs, simpson2d_accepts divs = true ->
   simpson2d Rops f bx ax ay by_ divs = Copp (simpson2d Rops f ax bx ay by_ divs) /\
@@ -216,6 +228,38 @@ Theorem C12_gl_adapter_2d_exact : forall (table : Z -> rule Rops) (degree : Z) (
                (Cmult (cpint Rops cp a b) (cpint Rops cq c e)))
     <= Bp * (Cmod (cpint Rops cq c e) + Bq) + Cmod (cpint Rops cp a b) * Bq.
 Proof. exact gl_adapter_2d_exact. Qed.
+
+(* ---- smooth oscillatory integrands for a certified rule (Gauss-Legendre given the run's certificate).
+   Taylor remainder of exp(it), complex modulus: *)
+Theorem C12_taylor_remainder : forall (d : nat) (t : R), Cmod (ER d t, EI d t) <= Rabs t ^ S d / INR (fact (S d)).
+Proof. exact taylor_remainder. Qed.
+
+(* moments within eps to degree d, nodes in [-1,1]:  error on exp(ikx) over [-1,1] <= eps sum_{m<=d} |k|^m/m! + (W+2) |k|^(d+1)/(d+1)! *)
+Theorem C12_certified_rule_expi : forall (r : rule Rops) (d : nat) (eps k : R),
+  (forall m, (m <= d)%nat -> Rabs (moment r m - leg_moment m) <= eps) -> nodes_in_unit r -> k <> 0 ->
+  Cmod (Cminus (apply_rule Rops r (expi k)) (expi_int k (-1) 1))
+    <= eps * expsum (Rabs k) d + (abs_weight r + 2) * (Rabs k ^ S d / INR (fact (S d))).
+Proof. exact certified_rule_expi. Qed.
+
+(* ... and after gauss-quad's affine transfer, with a complex amplitude, on every interval *)
+Theorem C12_certified_rule_expi_transfer : forall (r : rule Rops) (d : nat) (eps k : R) (a b : R) (amp : C),
+  (forall m, (m <= d)%nat -> Rabs (moment r m - leg_moment m) <= eps) -> nodes_in_unit r -> k <> 0 -> a <> b ->
+  let ku := k * tr_u a b in
+  Cmod (Cminus (apply_rule Rops (gq_transfer Rops r a b) (fun x => Cmult amp (expi k x))) (Cmult amp (expi_int k a b)))
+    <= Cmod amp * Rabs (tr_u a b) * (eps * expsum (Rabs ku) d + (abs_weight r + 2) * (Rabs ku ^ S d / INR (fact (S d)))).
+Proof. exact certified_rule_expi_transfer. Qed.
+
+(* the executable form: moment certificate + range check (nodes in [-1,1], weights >= 0) of an extracted dyadic rule,
+   both closed by vm_compute in the generated per-rule files of every run *)
+Theorem C12_certified_rule_expi_exact : forall (E F : Z) (d : nat) (en ed : Z) (xs ws : list bigZ),
+  (0 <=? E)%Z = true -> (0 <=? F)%Z = true -> (0 <? ed)%Z = true ->
+  cert_check_big E F d en ed xs ws = true -> range_check_big E xs ws = true ->
+  forall (a b k : R) (amp : C), k <> 0 -> a <> b ->
+  let ku := k * tr_u a b in
+  Cmod (Cminus (apply_rule Rops (gq_transfer Rops (big_rule E F xs ws) a b) (fun x => Cmult amp (expi k x))) (Cmult amp (expi_int k a b)))
+    <= Cmod amp * Rabs (tr_u a b) *
+       (IZR en / IZR ed * expsum (Rabs ku) d + (4 + IZR en / IZR ed) * (Rabs ku ^ S d / INR (fact (S d)))).
+Proof. exact certified_rule_expi_exact. Qed.
 
 (* ---- adaptive Simpson *)
 Theorem C12_adaptive_cubic_exact : forall (cs : list C) (a b eps : R) d, a <= b -> (length cs <= 4)%nat ->
@@ -365,6 +409,11 @@ Print Assumptions C12_gl_adapter_exact.
 Print Assumptions C12_gl_adapter_linear.
 Print Assumptions C12_gl_adapter_2d_separable.
 Print Assumptions C12_gl_adapter_2d_exact.
+Print Assumptions C12_taylor_remainder.
+Print Assumptions C12_certified_rule_expi.
+Print Assumptions C12_certified_rule_expi_transfer.
+Print Assumptions C12_certified_rule_expi_exact.
+Print Assumptions C12_simpson2d_expi_bound.
 Print Assumptions C12_adaptive_cubic_exact.
 Print Assumptions C12_adaptive_2d_bicubic_exact.
 Print Assumptions C12_adaptive_richardson_quintic.
